@@ -138,14 +138,14 @@ def split_violations(prop, case, res, known, stats):
 
 
 def write_replay(prop, case, v, meta=None):
-    d = os.path.join(VERIF, 'replays', prop)
+    d = os.path.join(os.environ.get('VF_REPLAY_DIR') or os.path.join(VERIF, 'replays'), prop)
     os.makedirs(d, exist_ok=True)
     name = f'fail_{jhash([case, v["sig"]])}.json'
     path = os.path.join(d, name)
     with open(path, 'w') as fp:
         json.dump({'property': prop, 'case': case, 'violation': v, 'meta': meta or {}}, fp, indent=1, sort_keys=True,
                   default=str)
-    return os.path.relpath(path, VERIF)
+    return os.path.relpath(path, VERIF) if path.startswith(VERIF) else path
 
 
 # ------------------------------------------------------------------------------------------------------------------
